@@ -68,9 +68,9 @@ CLAIMED = {
    note=TRUST+"Distinct parsed objects per goroutine (the property's own premise). Library internals assumed race-free for read-only use.",
    technique="effect (MOD) analysis over go/ssa + VTA call graph; who-may-call census; lock-pairing rule on SSA", ref="§3 C10"),
  "C09": dict(level="other",
-   text="Access policy decided over the SSA of all lint, util and framework functions: Certificate.Signature is loaded only where the sole use is len(); SelfSigned is read only by util.IsSelfSigned (returned unchanged) and, in zcrypto's source as loaded, is only ever set to true under bytes.Equal(RawSubject, RawIssuer); fingerprints, ValidationLevel, verification/JSON methods and the certificate as an interface value are not used; Raw flows only into len(), asn1.Unmarshal (target never read at its third component or RawContent, never escaping) or a cryptobyte.String from which only the outer SEQUENCE and at most its first two elements are read. A structural necessary condition: it does not decide that decoding succeeds independently of the signature bits, nor dependence through other zcrypto-derived fields.",
-   note=TRUST+"zcrypto computes all other exported Certificate fields from the TBS part; ASN.1 Certificate ::= SEQUENCE {tbs, algorithm, signature}.",
-   technique="def-use / access-policy analysis over go/ssa (who may read which member, where the value may flow)", ref="§3 C09"),
+   text="Access policy decided over the SSA of all lint, util and framework functions: Certificate.Signature is loaded only where the sole use is len(); SelfSigned is read only by util.IsSelfSigned (returned unchanged) and, in zcrypto's source as loaded, is only ever set to true under bytes.Equal(RawSubject, RawIssuer); fingerprints, ValidationLevel, verification/JSON methods and the certificate as an interface value are not used; Raw flows only into len(), asn1.Unmarshal (target never read at its third component or RawContent, never escaping) or a cryptobyte.String from which only the outer SEQUENCE and at most its first two elements are read. Which members are signature-dependent is re-derived on every run by a forward taint (data + control dependence, callee read/write summaries) over zcrypto's x509.parseCertificate as loaded, sources in.SignatureValue and in.Raw; every derived member must be covered by the policy, and no zcrypto function that lint code hands the certificate to may read one. A structural necessary condition: it does not decide that decoding succeeds independently of the signature bits.",
+   note=TRUST+"ASN.1 Certificate ::= SEQUENCE {tbs, algorithm, signature}; the taint pass over zcrypto does not follow interface dispatch or reflection.",
+   technique="def-use / access-policy analysis over go/ssa (who may read which member, where the value may flow); forward taint analysis of the parser (zcrypto parseCertificate) to derive the signature-dependent members", ref="§3 C09"),
  "C11": dict(level="other",
    text="Decision tables decide the configuration path for every TOML document as far as the code distinguishes them: deserializeConfigInto over section ∈ {absent, table, other value} × Unmarshal outcome (absent ⇒ defaults untouched; non-table ⇒ error, never a panic; errors returned), Configure (error iff inner error), MaybeConfigure (no-op unless Configurable, configures the instance's own Configure() value under the lint's name); the three life-cycle tables (configuration before CheckApplies, error ⇒ Fatal with the error text and no lint call — also on the CRL/OCSP paths without a recovery net); no unchecked type assertion / panic in the configuration path; every Configure() returns its own receiver and every constructor is fresh (no leakage between runs or registries); Filter copies the configuration on every path; the example generator covers all three kinds. TOML validity of the example, go-toml's own behaviour and the effect of an option on a lint are not decided.",
    note=TRUST+"go-toml returns type errors rather than panicking (trusted); reflect-based resolution of higher-scoped configurations is not modelled.",
